@@ -106,6 +106,7 @@ type snap struct {
 	bps     []string
 	props   interface{}
 	spec    interface{}
+	ctlAll  string // every field of the control, unexported ones included, as fmt prints them
 }
 
 func takeSnap(in *inputs, spec *core.Spec) *snap {
@@ -114,6 +115,7 @@ func takeSnap(in *inputs, spec *core.Spec) *snap {
 		s.bps = append(s.bps, id)
 	}
 	sort.Strings(s.bps)
+	s.ctlAll = fmt.Sprintf("%+v", *in.ctl)
 	return s
 }
 
@@ -137,6 +139,9 @@ func (s *snap) compare(in *inputs, spec *core.Spec) (cls, why string) {
 	sort.Strings(bps)
 	if fw.Canon(bps) != fw.Canon(s.bps) {
 		return "control-modified", "the control's breakpoints changed"
+	}
+	if now := fmt.Sprintf("%+v", *in.ctl); now != s.ctlAll {
+		return "control-modified", "the control changed (all its fields, as fmt prints them): before " + s.ctlAll + ", after " + now
 	}
 	if d := fw.Diff(s.props, fw.Deep(in.props)); d != "" {
 		return "props-modified", "the step properties changed: " + d
@@ -423,7 +428,7 @@ func renderSpec(a *ref.ASpec, render string) (*core.Spec, error) {
 // reports any write to what was given.
 func readers(cfg fw.Config, rec *fw.Rec) {
 	rec.Rule = "8 goroutines step and walk (ECMAScript, native identity, failing and rejecting programs) from one shared *State with permanent and structured bindings, one shared message and one shared StepProps while 3 readers serialise and iterate those objects; child built with -race: any report is a write to a given object (or an unsynchronised read of engine state)"
-	rec.Required = []string{"shared_input_rounds", "shared_input_rounds_action_without_function", "shared_input_rounds_identity_action"}
+	rec.Required = []string{"shared_input_rounds", "shared_input_rounds_action_without_function", "shared_input_rounds_identity_action", "shared_input_rounds_control_with_breakpoints"}
 	progs := []*ref.Prog{
 		{Ops: []ref.Op{{Op: "inc", K: "n"}, {Op: "set", K: "seen", V: "yes"}}, Ret: "same"},
 		{Ops: []ref.Op{{Op: "del", K: "cfg!"}, {Op: "inc", K: "n"}}, Ret: "same"},
@@ -461,6 +466,14 @@ func readers(cfg fw.Config, rec *fw.Rec) {
 		msg := map[string]interface{}{"uid": "m", "l": []interface{}{"q", "p"}, "k": 1.0}
 		props := core.StepProps{"p": map[string]interface{}{"k": "v"}, "l": []interface{}{1.0}}
 		ctl := &core.Control{Limit: 6}
+		if round%2 == 0 {
+			// a control with breakpoints, first used by all the walks at once
+			ctl.Breakpoints = map[string]core.Breakpoint{
+				"never":   func(context.Context, *core.State) bool { return false },
+				"at-done": func(_ context.Context, s *core.State) bool { return s.NodeName == "done" },
+			}
+			rec.Bucket("shared_input_rounds_control_with_breakpoints")
+		}
 		stop := make(chan struct{})
 		var rwg, wg sync.WaitGroup
 		for k := 0; k < 3; k++ {
@@ -515,7 +528,7 @@ func Run(cfg fw.Config, rec *fw.Rec) {
 		return
 	}
 	rec.Rule = "(a) every enumerated single-node configuration of C04's full vocabulary (failing / null-returning actions, rejecting / failing guards, invalid patterns, missing and @var targets, 4 error settings) x 5 states x 5 pendings, Step and Walk (limits 0,1,100), rendered with native actions (nil,err), native (partial,err), native identity action, and ECMAScript (sampled); (b) random multi-node specs with message sequences; deep snapshots of state, messages, control, props and spec are compared before/after, result maps are checked for identity with input maps, and the call is repeated; non-trivial = case whose result has a next state, an error, or emissions; distinct by canonical case"
-	rec.Required = []string{"op_step", "op_walk", "render_native-nilerr", "render_native-partial", "render_native-identity", "render_ecma", "path_action_failed", "path_error_node", "path_limit", "random_walks", "inplace_mutator_scripts", "builtin_state_scripts_repeated", "result_with_getters_exported_the_same_way_every_time", "walks_with_several_holding_breakpoints_repeated", "walks_over_a_refused_pattern_repeated"}
+	rec.Required = []string{"op_step", "op_walk", "render_native-nilerr", "render_native-partial", "render_native-identity", "render_ecma", "path_action_failed", "path_error_node", "path_limit", "random_walks", "inplace_mutator_scripts", "builtin_state_scripts_repeated", "result_with_getters_exported_the_same_way_every_time", "walks_with_several_holding_breakpoints_repeated", "walks_over_a_refused_pattern_repeated", "walks_with_a_control_used_before_and_edited_since"}
 	rec.Assume = []string{"native actions copy their input before modifying it (except the identity action, which returns it untouched), so a write into caller-owned data is the engine's", "equality of repeated results is claimed for guarded branches with at most one candidate"}
 	cs := c04.Configs(true)
 	states := c04.States()
@@ -669,6 +682,53 @@ func Run(cfg fw.Config, rec *fw.Rec) {
 			}
 			if same {
 				rec.Bucket("walks_with_several_holding_breakpoints_repeated")
+			}
+		}
+	}
+	// a control that is used again after the host replaced a predicate under the same id (or
+	// swapped one id for another) gives what a new control with the same settings gives
+	{
+		chain := &core.Spec{Name: "chain", Nodes: map[string]*core.Node{
+			"start": {Branches: &core.Branches{Type: "bindings", Branches: []*core.Branch{{Target: "a"}}}},
+			"a":     {Branches: &core.Branches{Type: "bindings", Branches: []*core.Branch{{Target: "b"}}}},
+			"b":     {Branches: &core.Branches{Type: "bindings", Branches: []*core.Branch{{Target: "c"}}}},
+			"c":     {}}}
+		if err := chain.Compile(context.Background(), nil, true); err == nil {
+			at := func(n string) core.Breakpoint {
+				return func(_ context.Context, s *core.State) bool { return s.NodeName == n }
+			}
+			walk := func(c *core.Control) string {
+				w, err := chain.Walk(context.Background(), &core.State{NodeName: "start", Bs: match.Bindings{}}, nil, c, nil)
+				rec.Eval(1)
+				if err != nil || w == nil {
+					return fmt.Sprint("error ", err)
+				}
+				return fmt.Sprintf("%d strides, %v %q", len(w.Strides), w.StoppedBecause, w.BreakpointId)
+			}
+			same := true
+			for _, edit := range []string{"replace-predicate", "swap-id", "clear-and-refill"} {
+				used := &core.Control{Limit: 10, Breakpoints: map[string]core.Breakpoint{"bp": at("b"), "other": at("nowhere")}}
+				walk(used)
+				var fresh *core.Control
+				switch edit {
+				case "replace-predicate":
+					used.Breakpoints["bp"] = at("a")
+					fresh = &core.Control{Limit: 10, Breakpoints: map[string]core.Breakpoint{"bp": at("a"), "other": at("nowhere")}}
+				case "swap-id":
+					delete(used.Breakpoints, "bp")
+					used.Breakpoints["zz"] = at("c")
+					fresh = &core.Control{Limit: 10, Breakpoints: map[string]core.Breakpoint{"zz": at("c"), "other": at("nowhere")}}
+				default:
+					used.Breakpoints = map[string]core.Breakpoint{"x": at("a"), "y": at("nowhere")}
+					fresh = &core.Control{Limit: 10, Breakpoints: map[string]core.Breakpoint{"x": at("a"), "y": at("nowhere")}}
+				}
+				if got, want := walk(used), walk(fresh); got != want {
+					rec.Violation("C06:repeat-differs:control-used-before", fmt.Sprintf("a walk with a control that an earlier walk had used (%s since) reports %s; the same walk with a new control of the same settings reports %s", edit, got, want), "chain start->a->b->c, "+edit)
+					same = false
+				}
+			}
+			if same {
+				rec.Bucket("walks_with_a_control_used_before_and_edited_since")
 			}
 		}
 	}
